@@ -757,10 +757,6 @@ def witnesses1():
          "too deep (replay skips fstack_entry for PLT functions, the others run it)",
          {"trig": {}, "depth": 2, "libcall": False, "plt": [2]}, fplt,
          lambda o: [(x, f) for x, f, d in o["replay"]] != [(x, f) for x, f, t in o["chrome"]]),
-        ("graph-time-range-drops-calls",
-         "`uftrace graph -r A~B`: after the first EXIT whose ENTRY lies before A the graph ignores every later call",
-         {"trig": {}, "range": (1200, 1650)}, f1,
-         lambda o: sorted(f for d, f, k in o["graph"]) != sorted(set(f for x, f, t in o["chrome"] if not x))),
     ]
 
 
@@ -785,14 +781,18 @@ def witnesses2():
 
 
 def report_witness(ctx, key, what, still, replay_obj):
+    """every divergence witness goes through ctx.known_finding: listed -> KNOWN-FINDING line,
+    reproducing but unlisted -> VIOLATION, no longer reproducing -> logged"""
     ctx.extra.setdefault("divergence_witnesses", {})[key] = "reproduces" if still else "no longer reproduces"
-    if ctx.kf.listed(ctx.prop, key):
-        ctx.known_finding(key, what, still, replay_obj)
-    elif still:
-        ctx.log("divergence witness %s reproduces (not listed in known-findings.txt; reported in evidence): %s"
-                % (key, what))
-    else:
-        ctx.log("divergence witness %s no longer reproduces" % key)
+    ctx.known_finding(key, what, still, replay_obj)
+
+
+# fixed defects kept as ordinary (corpus) cases: a regression is a VIOLATION through ok_agree
+def corpus1():
+    f1 = [C(0, 1000, 2000, [C(1, 1100, 1500, [C(2, 1200, 1400, [C(3, 1250, 1300)])]), C(4, 1600, 1700)])]
+    return [("corpus:graph-time-range", {"trig": {}, "range": (1200, 1650)}, f1, ["corpus:graph-time-range"]),
+            ("corpus:graph-trace-on", {"trig": {0: {"trace_off": True}, 4: {"trace_on": True}}}, f1,
+             ["corpus:graph-trace-on"])]
 
 
 def run(ctx):
@@ -804,6 +804,7 @@ def run(ctx):
     w1 = witnesses1()
     for key, what, cfg, f, differs in w1:
         todo.append(("witness:" + key, cfg, f, ["witness:" + key]))
+    todo += corpus1()
     n = ctx.n(8, 90)
     for kind in KINDS:
         for _ in range(n if kind != "plain" else 3):
